@@ -37,7 +37,7 @@ TIERS = {
               "required_probes": ["c15.path_checked", "c15.zero_jump_path", "c15.multi_date", "c15.maxstep_mode",
                                   "c15.coupled_path", "c15.gap_gt_eps", "c15.nd_path_checked", "c15.step_cap_changes_between_levels",
                                   "c15.jumps_in_several_date_intervals_on_jump_times"]},
-    "thorough": {"worlds": 200000, "wall": 3300, "shrink_budget": 150,
+    "thorough": {"worlds": 200000, "wall": 2900, "shrink_budget": 150,
                  "required_probes": ["c15.path_checked", "c15.zero_jump_path", "c15.multi_date", "c15.maxstep_mode",
                                      "c15.coupled_path", "c15.gap_gt_eps", "c15.tail_gap_gt_eps", "c15.burst", "c15.step_cap_changes_between_levels"]},
 }
@@ -145,7 +145,11 @@ def generate(seed, tier="quick"):
     tstyle = [r.choice(["spread", "early", "late", "cluster"]) for _ in range(npaths)]
     return {"world_seed": seed, "process": proc, "mode": mode, "maturity": T, "dates": dates, "npaths": npaths,
             "counts": counts, "eps": eps, "time_style": tstyle, "level": r.choice([1, 1, 2, 3]) if kind == "coupling" else 0,
-            "useed": r.randrange(10 ** 9), "eps_decay": r.choice([1.0, 0.7, 0.5]), "reinit": r.random() < 0.5}
+            "useed": r.randrange(10 ** 9), "eps_decay": r.choice([1.0, 0.7, 0.5]), "reinit": r.random() < 0.5,
+            # the two engines' call sequences around a level transition: the adaptive loop deep-copies the previous level's
+            # object, refines it and pre-computes again before every pass; the fixed-level run refines ONE object level
+            # after level and simulates right after next_level (which pre-computed on its own)
+            "sequence": r.choice(["adaptive", "adaptive", "fixed_level"])}
 
 
 def shrink_candidates(sc):
@@ -277,18 +281,21 @@ def execute(wd, sc):
             # the engines' history: the level-l object is a deep copy of the level-(l-1) object, (re-)initialised and
             # refined with the step cap of ITS level (the cap shrinks with h^BG from level to level)
             if lvl > 0:
-                process = copy.deepcopy(process)
+                if sc.get("sequence", "adaptive") == "adaptive":
+                    process = copy.deepcopy(process)
                 if eps is not None:
                     eps = eps * sc.get("eps_decay", 1.0)
                     if sc.get("eps_decay", 1.0) != 1.0:
                         wd.probes["c15.step_cap_changes_between_levels"] += 1
-                if sc.get("reinit"):
+                if sc.get("reinit") and sc.get("sequence", "adaptive") == "adaptive":
                     process.initialisation(product, max_step_epsilon=eps)
             phase.update(name="precompute", poisson_idx=0, precompute_paths=npaths)
             process.next_level(npaths, None, product, max_step_epsilon=eps)
-        if kind == "coupling":
+        if kind == "coupling" and sc.get("sequence", "adaptive") == "adaptive":
             phase.update(name="precompute", poisson_idx=0, precompute_paths=npaths)
             process.pre_computation(npaths, product)
+        elif kind == "coupling":
+            wd.probes["c15.simulated_right_after_next_level"] += 1
     except HarnessError:
         raise
     except Exception as e:
